@@ -597,7 +597,7 @@ func (u *Unit) evalSpecCall(env *SpecEnv, c *ECall) Value {
 		if env.old != nil {
 			base = env.old.Alloc
 		}
-		return Value{T: Or(Eq(ref, IntLit(0)), Ge(ref, base)), Ty: boolType}
+		return Value{T: Or(Eq(ref, IntLit(0)), And(Ge(ref, base), Lt(ref, env.s.Alloc))), Ty: boolType}
 	case "mk":
 		// mk(T, fields...): value of struct/array type T
 		ty := u.resolveType(env, c.Args[0].exprString())
@@ -720,6 +720,9 @@ func (u *Unit) applySpecFunc(env *SpecEnv, sf *SpecFunc, args []Value) Value {
 		if t == nil {
 			u.specErr("spec function %s: argument %d has no term", sf.Name, i)
 		}
+		if i < len(def.paramTypes) && !compatibleArg(a.Ty, def.paramTypes[i]) {
+			u.specErr("spec function %s: argument %d has type %s, parameter is %s (heaps are keyed by element type)", sf.Name, i+1, a.Ty, def.paramTypes[i])
+		}
 		ts = append(ts, t)
 	}
 	for _, hk := range def.heapKeys {
@@ -738,6 +741,29 @@ type specDef struct {
 	heapKeys    []string
 	heapElem    map[string]types.Type
 	provisional bool
+	paramTypes  []types.Type
+}
+
+// compatibleArg: identical types, or slices with identical element types (LineString vs MultiPoint),
+// or untyped constants meeting basic types.
+func compatibleArg(a, p types.Type) bool {
+	if a == nil || p == nil || types.Identical(a, p) {
+		return true
+	}
+	as, ok1 := a.Underlying().(*types.Slice)
+	ps, ok2 := p.Underlying().(*types.Slice)
+	if ok1 && ok2 {
+		return types.Identical(as.Elem(), ps.Elem())
+	}
+	if _, ok := a.Underlying().(*types.Basic); ok {
+		if _, ok := p.Underlying().(*types.Basic); ok {
+			return true
+		}
+	}
+	if isUntypedNil(a) {
+		return true
+	}
+	return types.Identical(a.Underlying(), p.Underlying()) && !ok1
 }
 
 func (u *Unit) defineSpecFunc(env *SpecEnv, sf *SpecFunc) *specDef {
@@ -761,6 +787,9 @@ func (u *Unit) defineSpecFunc(env *SpecEnv, sf *SpecFunc) *specDef {
 			pv := Leaf("a_"+p.Name, w.SortOf(ty))
 			sub.names[p.Name] = Value{T: pv, Ty: ty}
 			params = append(params, fmt.Sprintf("(%s %s)", pv.Op, pv.Sort))
+			if len(d.paramTypes) < len(sf.Params) {
+				d.paramTypes = append(d.paramTypes, ty)
+			}
 		}
 		body := u.evalSpec(sub, sf.Body)
 		if body.T == nil || body.T.Sort != d.resSort {
